@@ -47,6 +47,21 @@ class State(object):
         return sum(a[3] for a in self.allocs if a[1] == u and a[2] == rc)
 
 
+# Directed histories (hist.run_history(directed=True)): the name of the targeted shape that the next generated
+# request must take; the probabilistic gate of that shape is then skipped and the other shapes stay off.
+FORCE = None
+TARGETS = ('joint_claim', 'joint_claim_reshape', 'conflict_tail', 'conflict_tail_reshape', 'drop_in_use',
+           'resize_in_use', 'agg_share', 'agg_share')
+
+
+def gate(rng, name, p_skip):
+    """True = do not apply the targeted shape `name` to this request"""
+    if FORCE is not None:
+        rng.random()
+        return not FORCE.startswith(name)
+    return rng.random() < p_skip
+
+
 def pick_v(rng, lo=0):
     return rng.choice([v for v in VERSIONS if v >= lo])
 
@@ -122,7 +137,7 @@ def joint_claim(rng, st, cs, avoid=()):
     """Targeted: make two consumers of one request claim the same (provider, class) so that each amount
     fits into the free capacity alone but their sum does not (the running-sum path of the capacity check);
     everything else about the two consumers is made valid so that the capacity check decides."""
-    if len(cs) < 2 or rng.random() < 0.4:
+    if len(cs) < 2 or gate(rng, 'joint_claim', 0.4):
         return
     mine = {c['uuid'] for c in cs[:2]}
     cands = []
@@ -168,7 +183,7 @@ def valid_claim(rng, st, u):
 def conflict_tail(rng, st, cs, v):
     """Targeted: a multi-consumer request whose leading consumers are fine (existing ones carrying their
     right generation, holding allocations) and whose LAST consumer has a generation conflict."""
-    if v < 28 or rng.random() < 0.75:
+    if v < 28 or gate(rng, 'conflict_tail', 0.75):
         return
     holders = [c for c in st.cons if any(a[0] == c for a in st.allocs)]
     rps = [u for u in st.rps if valid_claim(rng, st, u)]
@@ -197,7 +212,7 @@ def st_rcname(st, rcid):
 def drop_in_use(rng, st, ri, cs, v):
     """Targeted: a reshape whose allocations pass against the interim inventory but whose final inventory
     replacement drops a class the request itself allocates (rejected at the very last step)."""
-    if rng.random() < 0.8:
+    if gate(rng, 'drop_in_use', 0.8):
         return
     cands = [u for u in st.rps if valid_claim(rng, st, u) and len(st.invs.get(u, {})) >= 1]
     if not cands:
@@ -221,7 +236,7 @@ def resize_in_use(rng, st, ri, cs, v):
     """Targeted: a reshape that changes the values of a class a consumer holds, with that consumer's allocation
     in the same request acceptable under only ONE of the old and new inventory (grown: only under the new one,
     must succeed; shrunk below the kept allocation: must be rejected)."""
-    if rng.random() < 0.8:
+    if gate(rng, 'resize_in_use', 0.8):
         return
     sole = []
     for a in st.allocs:
@@ -266,6 +281,9 @@ def gen_op(rng, dump, profile='default'):
     rps = list(st.rps)
     kinds = sorted(prof)
     kind = rng.choices(kinds, weights=[prof[k] for k in kinds])[0]
+    if FORCE is not None:
+        kind = ('alloc_post' if FORCE in ('joint_claim', 'conflict_tail') else
+                'aggs_set' if FORCE == 'agg_share' else 'reshape')
     if not rps and kind not in ('names', 'rp_create') and rng.random() < 0.7:
         kind = 'rp_create'
 
@@ -286,6 +304,10 @@ def gen_op(rng, dump, profile='default'):
         if k < 0.45:
             return ('rc_put', v, rng.choice([1000, 1001, 1002, 1]))
         if k < 0.55:
+            have = sorted(row[1] for row in dump[7])
+            if len(have) >= 2 and rng.random() < 0.45:
+                old, new = rng.sample(have, 2)          # targeted: rename onto a name that exists (duplicate key at flush)
+                return ('rc_rename', rng.choice([2, 4, 6]), old, new)
             return ('rc_rename', rng.choice([2, 4, 6, 7, 1]), rng.choice([1000, 1001, 1002, 0]),
                     rng.choice([1000, 1001, 1002, 2]))
         if k < 0.7:
@@ -357,14 +379,35 @@ def gen_op(rng, dump, profile='default'):
             shared = sorted(set(mine) & set(others))
             drop = rng.choice(shared)
             l = [a for a in mine if a != drop]
+        if FORCE == 'agg_share' and rps:
+            # directed: an aggregate shared by two providers, then one of them leaves it (the other's membership and
+            # the aggregate itself must stay)
+            holders = {}
+            for (w, a) in dump[10]:
+                holders.setdefault(a, set()).add(w)
+            shared = sorted((a, sorted(ws)) for a, ws in holders.items() if len(ws) >= 2)
+            if shared and rng.random() < 0.7:
+                a, ws = rng.choice(shared)
+                u = rng.choice(ws)
+                l = sorted(x for (w, x) in dump[10] if w == u and x != a)
+            elif holders:
+                a = rng.choice(sorted(holders))
+                free = [w for w in rps if w not in holders[a]]
+                if free:
+                    u = rng.choice(free)
+                    l = sorted(set(x for (w, x) in dump[10] if w == u) | {a})
+            else:
+                u = rng.choice(rps)
+                l = [rng.randint(1, N_AGG)]
+            return ('aggs_set', pick_v(rng, 1), u, st.gen_of(u), l)
         return ('aggs_set', pick_v(rng), u, gen_for(u), l)
     if kind == 'alloc_put':
         v = pick_v(rng)
         return ('alloc_put', v, gen_cons(rng, st, v, v >= 28))
     if kind == 'alloc_post':
-        v = pick_v(rng, 12)
+        v = pick_v(rng, 12 if FORCE is None else 28)
         cs = []
-        for _ in range(rng.randint(1, 3)):
+        for _ in range(rng.randint(1, 3) if FORCE is None else 3):
             c = gen_cons(rng, st, max(v, 8), True)
             if all(c['uuid'] != x['uuid'] for x in cs):
                 cs.append(c)
@@ -388,7 +431,7 @@ def gen_op(rng, dump, profile='default'):
                 rcs = rcs[1:]
         ri.append((u, gen_for(u, 0.93), [gen_inv(rng, rc) for rc in rcs]))
     cs = []
-    for _ in range(rng.randint(0, 2)):
+    for _ in range(rng.randint(0, 2) if FORCE is None else 2):
         c = gen_cons(rng, st, max(v, 28), True)
         if all(c['uuid'] != x['uuid'] for x in cs):
             cs.append(c)
